@@ -93,11 +93,11 @@ pub fn index_instruction_from(value: TypeLayout) -> (r: IndexInstruction) ensure
 fn main() {{}}
 """
     obls = [Obl("C02.index.view", ["C02", "C13"], fn="TypeLayout::get_type_recursively", desc="get_type_recursively: the captured-variable wrapper removed, nothing else"),
-            Obl("C02.index.supports", ["C02", "C13", "C03"], fn="TypeLayout::supports_index", desc="supports_index: indexing is allowed exactly for what that view shows to be a map, a list or a string"),
+            Obl("C02.index.supports", ["C02", "C13", "C03", "C16"], fn="TypeLayout::supports_index", desc="supports_index: indexing is allowed exactly for what that view shows to be a map, a list or a string (the view the index's code generation uses: a disagreement is a failed code generation, and inside a call argument a compiler panic -- C16)"),
             Obl("C02.index.is_map", ["C02", "C13"], fn="TypeLayout::is_map", desc="is_map: the same view"),
             Obl("C02.index.instruction", ["C02", "C13"], fn="IndexInstruction::from", desc="IndexInstruction::from: map_op exactly for what the same view shows to be a map")]
     return gen, obls, log
 
 
-UNITS = [VUnit("c02_index_kind", ["C02", "C13", "C03"], "indexing: type check and code generation ask `is it a map?` through the same view", build)]
+UNITS = [VUnit("c02_index_kind", ["C02", "C13", "C03", "C16"], "indexing: type check and code generation ask `is it a map?` through the same view", build)]
 UNITS[0].assumes = ["the model TypeLayout keeps the variants these functions match on (others collapsed into Other)"]
